@@ -198,8 +198,10 @@ CHAN = [0]
 
 def random_action(rng, n_insts):
     r = rng.random()
-    if r < 0.22 or n_insts < 2:
+    if r < 0.16 or n_insts < 2:
         return ("construct", None if rng.random() < 0.55 else rng.randrange(0, 3))
+    if r < 0.215:
+        return ("provoke",)
     if r < 0.25:
         return ("caller-list",)
     if r < 0.30:
@@ -277,6 +279,10 @@ def one_run(ctx, kind, rng, plan=None, steps=0):
                 k = act[2] if act[2] is not None else rng.randrange(len(its))
                 edit_item(kind, its[k], rng)
                 ops.append([Sym("edit"), i, k])
+            elif act[0] == "provoke":
+                import blockrun as B
+                B.provoke(rng, kinds=[kind])                  # an encode / decode / constructor call of this class fails (and is caught)
+                ops.append([Sym("edit"), 9999, 0])            # for the model: nothing happened
             elif act[0] == "caller-list":
                 if not caller_lists:
                     continue
@@ -392,7 +398,7 @@ def run(ctx):
                         continue          # an instance that holds the very object that was edited (after a list assignment)
                     if j != op[1] and before != after:
                         what = f"items {before[0]} -> {after[0]}" if before[0] != after[0] else "its encoding changed"
-                        who = "the caller editing the list it had given to a constructor" if op[1] == 9999 else f"{'editing an item of' if op[0] == 'edit' else 'editing'} instance {op[1]}"
+                        who = "a failed call elsewhere (or the caller editing a list it had given to a constructor)" if op[1] == 9999 else f"{'editing an item of' if op[0] == 'edit' else 'editing'} instance {op[1]}"
                         ctx.fail(f"{kind}: {who} changed instance {j} ({what})", dict(rp, upto=i, frames=nframes),
                                  ident=f"{kind} instances share state")
                         hit = True
